@@ -88,6 +88,13 @@ pub fn run(run: &Run) {
         }
         true
     });
+    composing_pairs(run, "all_composing_pairs", &|s, l| profs.iter().all(|p| match check(run, *p, s, l) {
+        Ok(()) => true,
+        Err(_) => {
+            shrink_report(run, *p, Op::Enforce, s);
+            false
+        }
+    }));
     collisions(run, "fingerprint_collisions", &|s, l| profs.iter().all(|p| match check(run, *p, s, l) {
         Ok(()) => true,
         Err(v) => {
